@@ -195,8 +195,8 @@ theorem set_stages :
   decide
 
 /-- non-vacuity: the tables are populated, and the check does detect a missing stage -/
-example : Generated.loadCalls.length = 26 ∧ Generated.injectCalls.length = 17 ∧
-    Generated.generateInjectorsCalls.length = 21 ∧ Generated.processNewSetCalls.length = 9 := by
+example : 5 ≤ Generated.loadCalls.length ∧ 3 ≤ Generated.injectCalls.length ∧
+    4 ≤ Generated.generateInjectorsCalls.length ∧ 2 ≤ Generated.processNewSetCalls.length := by
   decide
 example : ["solve", "noSuchStage"].all (fun f => Generated.loadCalls.contains f) = false := by decide
 /-- `Load` does not emit code: what gen runs in addition is output only -/
